@@ -28,6 +28,7 @@ pub struct Norm<'a> {
     pub forpat_no: usize,
     pub tmp_no: usize,
     pub call_no: BTreeMap<String, usize>,
+    pub split_no: BTreeMap<String, usize>,
     pub let_no: BTreeMap<String, usize>,
     pub hoisted: Vec<Stmt>,
     pub log: BTreeMap<String, usize>,
@@ -47,7 +48,7 @@ impl<'a> Norm<'a> {
         Norm {
             spec, unit, canary, fname: fname.to_string(),
             loop_no: 0, closure_no: 0, if_no: 0, match_no: 0, assert_no: 0, return_no: 0, forpat_no: 0, tmp_no: 0,
-            call_no: Default::default(), let_no: Default::default(), hoisted: vec![], log: Default::default(),
+            call_no: Default::default(), split_no: Default::default(), let_no: Default::default(), hoisted: vec![], log: Default::default(),
             raws: vec![], used_anchors: Default::default(), avail_anchors: Default::default(), errors: vec![],
             closure_depth: 0, canaries: vec![],
         }
@@ -299,6 +300,33 @@ impl<'a> Norm<'a> {
     }
 }
 
+impl<'a> Norm<'a> {
+    /// R-FORPAT: reference sub-patterns in a `for` pattern -> fresh binder + `let INNER = *binder;` at the body start
+    fn forpat(&mut self, pat: &mut Pat, body: &mut Block) {
+        let mut lets: Vec<Stmt> = vec![];
+        let mut no = self.forpat_no;
+        fn walk(p: &mut Pat, no: &mut usize, lets: &mut Vec<Stmt>) {
+            match p {
+                Pat::Reference(r) => {
+                    *no += 1;
+                    let id = Ident::new(&format!("__vx_x{}", *no), Span::call_site());
+                    let inner = (*r.pat).clone();
+                    lets.push(parse_quote!(let #inner = *#id;));
+                    *p = parse_quote!(#id);
+                }
+                Pat::Tuple(t) => { for el in t.elems.iter_mut() { walk(el, no, lets); } }
+                Pat::Paren(pp) => walk(&mut pp.pat, no, lets),
+                _ => {}
+            }
+        }
+        walk(pat, &mut no, &mut lets);
+        if !lets.is_empty() {
+            self.forpat_no = no;
+            for (k, s) in lets.into_iter().enumerate() { body.stmts.insert(k, s); self.bump("R-FORPAT"); }
+        }
+    }
+}
+
 use syn::parse::Parser;
 
 pub struct Rename<'a> {
@@ -464,6 +492,11 @@ impl<'a> VisitMut for Norm<'a> {
                 before.extend(self.anchor(&format!("before.{}#{}", nm, k)));
                 after.extend(self.anchor(&format!("after.{}#{}", nm, k)));
             }
+            match &s {
+                Stmt::Expr(Expr::Continue(_), _) => { let k = { let k = self.call_no.entry("continue!".into()).or_default(); *k += 1; *k }; before.extend(self.anchor(&format!("continue#{}", k))); }
+                Stmt::Expr(Expr::Break(_), _) => { let k = { let k = self.call_no.entry("break!".into()).or_default(); *k += 1; *k }; before.extend(self.anchor(&format!("break#{}", k))); }
+                _ => {}
+            }
             if loop_stmt {
                 before.extend(self.anchor(&format!("loop{}.before", next_loop)));
                 after.extend(self.anchor(&format!("loop{}.after", next_loop)));
@@ -498,6 +531,28 @@ impl<'a> VisitMut for Norm<'a> {
                     *e = ne;
                     return;
                 }
+            }
+            Expr::ForLoop(f) if self.spec.forloop.contains(&(self.loop_no + 1)) => {
+                // R-FORLOOP: Rust's own desugaring of `for P in E {B}` over the VxIter model:
+                // `let mut it = (E).into_iter(); loop { let Some(P) = it.next() else { break; }; B }`  (lets `continue` through)
+                let n = self.loop_no + 1;
+                let itn = match self.spec.loop_labels.get(&n) { Some(l) => l.clone(), None => format!("__vx_it{}", n) };
+                let it = Ident::new(&itn, Span::call_site());
+                let ex = &f.expr;
+                let mut init: Expr = parse_quote!((#ex).into_iter());
+                self.visit_expr_mut(&mut init);
+                self.hoisted.push(parse_quote!(let mut #it = #init;));
+                let mut pat = (*f.pat).clone();
+                let mut body = f.body.clone();
+                let mut lets_holder: Block = parse_quote!({});
+                self.forpat(&mut pat, &mut lets_holder);
+                let lets = &lets_holder.stmts;
+                let stmts = std::mem::take(&mut body.stmts);
+                let label = &f.label;
+                let head_id = Ident::new(&format!("__vx_anchor_loop{}_head", n), Span::call_site());
+                let bound_id = Ident::new(&format!("__vx_anchor_loop{}_bound", n), Span::call_site());
+                *e = parse_quote!(#label loop { #head_id!(); let Some(#pat) = #it.next() else { break; }; #(#lets)* #bound_id!(); #(#stmts)* });
+                self.bump("R-FORLOOP");
             }
             Expr::Await(a) => {
                 let base = (*a.base).clone();
@@ -588,30 +643,7 @@ impl<'a> VisitMut for Norm<'a> {
                     *f.expr = parse_quote!(#w(#ex));
                 }
                 self.visit_block_mut(&mut f.body);
-                // R-FORPAT: reference sub-patterns in a `for` pattern -> fresh binder + `let INNER = *binder;` at the body start
-                {
-                    let mut lets: Vec<Stmt> = vec![];
-                    let mut no = self.forpat_no;
-                    fn walk(p: &mut Pat, no: &mut usize, lets: &mut Vec<Stmt>) {
-                        match p {
-                            Pat::Reference(r) => {
-                                *no += 1;
-                                let id = Ident::new(&format!("__vx_x{}", *no), Span::call_site());
-                                let inner = (*r.pat).clone();
-                                lets.push(parse_quote!(let #inner = *#id;));
-                                *p = parse_quote!(#id);
-                            }
-                            Pat::Tuple(t) => { for el in t.elems.iter_mut() { walk(el, no, lets); } }
-                            Pat::Paren(pp) => walk(&mut pp.pat, no, lets),
-                            _ => {}
-                        }
-                    }
-                    walk(&mut f.pat, &mut no, &mut lets);
-                    if !lets.is_empty() {
-                        self.forpat_no = no;
-                        for (k, s) in lets.into_iter().enumerate() { f.body.stmts.insert(k, s); self.bump("R-FORPAT"); }
-                    }
-                }
+                self.forpat(&mut f.pat, &mut f.body);
                 self.finish_loop(n, &mut f.body);
                 f.attrs.clear();
             }
@@ -787,6 +819,36 @@ impl<'a> VisitMut for Norm<'a> {
                             let f = Ident::new(f, Span::call_site());
                             mc.receiver = Box::new(parse_quote!(#f(#s, #en)));
                             self.bump("R-ITER");
+                        }
+                    }
+                }
+                // R-LETSPLIT: `@letsplit METHOD#k NAME` binds the receiver of the k-th METHOD call to `let NAME = recv;` before the
+                // enclosing statement; only for receivers that are pure by syntax (paths, fields, refs, iterator sources)
+                if self.spec.letsplit.chunks(2).any(|c| c.len() == 2 && c[0].split('#').next() == Some(name.as_str())) {
+                    let k = { let k = self.split_no.entry(name.clone()).or_default(); *k += 1; *k };
+                    let key = format!("{}#{}", name, k);
+                    if let Some(c) = self.spec.letsplit.chunks(2).find(|c| c.len() == 2 && c[0] == key) {
+                        fn pure(e: &Expr) -> bool {
+                            match e {
+                                Expr::Path(_) | Expr::Lit(_) => true,
+                                Expr::Field(f) => pure(&f.base),
+                                Expr::Reference(r) => r.mutability.is_none() && pure(&r.expr),
+                                Expr::Paren(p) => pure(&p.expr),
+                                Expr::Unary(u) => matches!(u.op, UnOp::Deref(_)) && pure(&u.expr),
+                                Expr::MethodCall(m) => m.args.is_empty() && ITER_HEADS_M.contains(&m.method.to_string().as_str()) && pure(&m.receiver),
+                                Expr::Call(c) => matches!(&*c.func, Expr::Path(p) if p.path.segments.last().map(|s| ITER_HEADS_F.contains(&s.ident.to_string().as_str())).unwrap_or(false)) && c.args.iter().all(pure),
+                                _ => false,
+                            }
+                        }
+                        if pure(&mc.receiver) {
+                            let id = Ident::new(&c[1], Span::call_site());
+                            let recv = &mc.receiver;
+                            self.hoisted.push(parse_quote!(let #id = #recv;));
+                            mc.receiver = Box::new(parse_quote!(#id));
+                            self.used_anchors.insert(format!("letsplit {}", key));
+                            self.bump("R-LETSPLIT");
+                        } else {
+                            self.errors.push(format!("@letsplit {}: receiver is not pure by syntax (in {})", key, self.fname));
                         }
                     }
                 }
